@@ -40,7 +40,7 @@ impl Monitor for C02 {
         if tier == Tier::Sanitizer {
             vec!["mic_ok", "mic_bad"]
         } else {
-            vec!["mic_ok", "mic_bad", "checked_ok", "checked_err_buffer_intact", "struct_reject", "struct_accept", "roundtrip_ok", "ja_ok", "ja_bad", "jr_ok", "jr_bad", "double_decrypt_ok"]
+            vec!["mic_ok", "mic_bad", "checked_ok", "checked_err_buffer_intact", "struct_reject", "struct_accept", "roundtrip_ok", "ja_ok", "ja_bad", "jr_ok", "jr_bad", "double_decrypt_ok", "decrypt_other_low_half"]
         }
     }
 
@@ -433,6 +433,44 @@ fn judge_bytes(w: &[u8], nwk: &[u8; 16], app: &[u8; 16], true_fcnt: u32, mutatio
                 }
             }
             Ok(x) => col.violation("C02|decrypt|rejects-valid", "decrypt_in_place failed on a structurally valid frame with both keys", json!({"bytes": hex(w), "results": format!("{:?}", x)})),
+        }
+        // (5) the caller supplies only the upper half of the counter: whatever its lower half is,
+        // the keystream is that of (upper half | FCnt on the wire)
+        {
+            let rv = refd.as_ref().unwrap();
+            if !rv.frm.is_empty() {
+                let upper = c & 0xFFFF_0000;
+                let alt = upper
+                    | match rng.below(4) {
+                        0 => 0,
+                        1 => 0xFFFF,
+                        2 => (rv.fcnt16 as u32) ^ 0x8000,
+                        _ => rng.below(0x1_0000) as u32,
+                    };
+                let mut b5 = w.to_vec();
+                let r = trap(|| {
+                    DecryptedDataPayload::decrypt_in_place(&mut b5, Some(&nc), Some(&ac), alt).map(|p| match p.frm_payload() {
+                        FrmPayload::None => vec![],
+                        FrmPayload::Data(x) => x.to_vec(),
+                        FrmPayload::MacCommands(x) => x.to_vec(),
+                    })
+                });
+                let exp = decrypt_data(rv, nwk, app, upper | rv.fcnt16 as u32);
+                match r {
+                    Err(t) => col.violation(&format!("C02|decrypt|panic|{}", t.file()), "decrypt_in_place panicked", json!({"bytes": hex(w), "panic": t.msg, "fcnt": alt})),
+                    Ok(Err(e)) => col.violation("C02|decrypt|rejects-valid", "decrypt_in_place failed on a structurally valid frame with both keys", json!({"bytes": hex(w), "error": errname(&e), "fcnt": alt})),
+                    Ok(Ok(got)) => {
+                        col.event("decrypt_other_low_half");
+                        if got != exp {
+                            col.violation(
+                                &format!("C02|decrypt|plaintext-differs|caller-low-half-{}", if alt & 0xFFFF == rv.fcnt16 as u32 { "same" } else { "other" }),
+                                "decrypt_in_place: the plaintext is not that of (caller's upper half, FCnt on the wire)",
+                                json!({"bytes": hex(w), "nwk": hex(nwk), "app": hex(app), "fcnt_argument": alt, "wire_fcnt": rv.fcnt16, "got": hex(&got), "expected": hex(&exp)}),
+                            );
+                        }
+                    }
+                }
+            }
         }
         // missing key: Err(MissingKey) and buffer untouched
         let rv = refd.as_ref().unwrap();
